@@ -98,6 +98,41 @@ def run_tlc(module: str, cfg: str | None = None, *, env: dict | None = None,
     return r
 
 
+def simulate(module: str, cfg: str, *, num: int, depth: int, seed: int, env: dict | None = None,
+             name: str | None = None, timeout: int = 900, only: set | None = None,
+             last: set | None = None) -> list[list[tuple[str, dict]]]:
+    """tlc -simulate: returns behaviours as lists of (action label, state dict).
+    only: variables to parse in every state; last: variables parsed additionally in the final state."""
+    name = name or module
+    d = WORK / "sim" / f"{name}-{os.getpid()}"
+    if d.exists():
+        shutil.rmtree(d)
+    d.mkdir(parents=True)
+    # num is per worker; fixed seed + aril 0 => the set of behaviours is reproducible
+    nw = 8
+    run_tlc(module, cfg, env=env, workers=nw, name=name + "-sim", timeout=timeout, heap="2g",
+            extra=["-simulate", f"file={d}/tr,num={max(1, num // nw)}", "-depth", str(depth), "-seed", str(seed),
+                   "-aril", "0"])
+    out = []
+    hdr = re.compile(r"^\\\* <(\w+)(?:\(([^)]*)\))? line .*?>\s*$\n^STATE_\d+ ==\s*$", re.M)
+    for f in sorted(d.glob("tr_*"), key=lambda p: [int(x) for x in p.name.split("_")[1:]]):
+        text = f.read_text()
+        ms = list(hdr.finditer(text))
+        beh = []
+        for i, m in enumerate(ms):
+            if i + 1 < len(ms):
+                end = ms[i + 1].start()
+            else:
+                tail = re.search(r"^={4,}\s*$", text[m.end():], re.M)
+                end = m.end() + tail.start() if tail else len(text)
+            body = text[m.end():end]
+            want = only if (only is None or i + 1 < len(ms)) else only | (last or set())
+            beh.append((m.group(1), parse_state(body, want)))
+        out.append(beh)
+    shutil.rmtree(d, ignore_errors=True)
+    return out
+
+
 def run_trace_tlc(module: str, cfg: str, in_file: Path, out_file: Path, *, name: str | None = None,
                   extra_env: dict | None = None, timeout: int = 1800, heap: str = "2g",
                   dfs: bool = False) -> tuple[TLCResult, object]:
@@ -272,8 +307,8 @@ def parse_value(text: str):
     return v
 
 
-def parse_state(text: str) -> dict:
-    """'/\\ x = 1\\n/\\ y = <<>>' -> {'x': 1, 'y': ()}"""
+def parse_state(text: str, want: set | None = None) -> dict:
+    """'/\\ x = 1\\n/\\ y = <<>>' -> {'x': 1, 'y': ()}   (want: parse only these variables)"""
     st = {}
     parts = re.split(r"(?:^|\n)\s*/\\ ", "\n" + text.strip())
     for part in parts:
@@ -283,5 +318,6 @@ def parse_state(text: str) -> dict:
         m = re.match(r"([A-Za-z_][A-Za-z0-9_]*)\s*=\s*(.*)$", part, re.S)
         if not m:
             raise ValueError(f"cannot parse state conjunct {part[:60]!r}")
-        st[m.group(1)] = parse_value(m.group(2))
+        if want is None or m.group(1) in want:
+            st[m.group(1)] = parse_value(m.group(2))
     return st
